@@ -64,6 +64,37 @@ def oracle(ck, case, G, path):
                     if cnt[a] and not (abs(sums[a] - 1) < 1e-6 or abs(sums[a]) < 1e-6):
                         cls = "connector-with-several-compatible-descriptors" if a == "trans_prob" and isinstance(els[e], Stochastic) and e + 1 < len(els) and isinstance(els[e + 1], SmilesToken) else None
                         ck.fail("not-normalised", inp, f"{a} out of descriptor {(e, t, k)} ({bd}) sums to {sums[a]}", cls)
+                # inter-element transitions: generation hands over the descriptor left open by the repeat units (never an end group's,
+                # never one that does not fit the right terminal) and enters the next object at a repeat unit that fits its left terminal
+                trans_out = [(dst, data["trans_prob"]) for _, dst, data in G.out_edges(bd, data=True) if "trans_prob" in data and isinstance(dst, BondDescriptor)]
+                if trans_out and bd.weight >= 0:
+                    if isinstance(el, Stochastic):
+                        if tok not in el.repeat_tokens:
+                            ck.fail("transition-edge-leaves-end-group", inp, f"trans_prob edge out of end-group descriptor {(e, t, k)} ({bd}): generation never hands over an end group's descriptor")
+                        elif not spec_compatible_bd(bd, el.right_terminal):
+                            ck.fail("transition-edge-ignores-right-terminal", inp, f"trans_prob edge out of {(e, t, k)} ({bd}), right terminal {el.right_terminal}")
+                    nxt = els[e + 1] if e + 1 < len(els) else None
+                    if nxt is None:
+                        ck.fail("transition-edge-out-of-last-element", inp, f"{(e, t, k)}")
+                    else:
+                        nxt_bds = nxt.bond_descriptors
+                        for dst, p in trans_out:
+                            if not any(dst is o for o in nxt_bds):
+                                ck.fail("transition-edge-skips-element", inp, f"{(e, t, k)} -> {path.get(id(dst))}")
+                            elif not spec_compatible_bd(bd, dst):
+                                ck.fail("transition-edge-between-incompatible-descriptors", inp, f"{(e, t, k)} -> {path[id(dst)]}")
+                            elif isinstance(nxt, Stochastic) and (not any(dst in tk.bond_descriptors and any(dst is x for x in tk.bond_descriptors) for tk in nxt.repeat_tokens)
+                                                                  or not spec_compatible_bd(dst, nxt.left_terminal)):
+                                ck.fail("transition-edge-enters-at-inadmissible-descriptor", inp, f"{(e, t, k)} -> {path[id(dst)]} (left terminal {nxt.left_terminal})")
+                        if isinstance(nxt, Stochastic):
+                            adm = [o for tk in nxt.repeat_tokens for o in tk.bond_descriptors if spec_compatible_bd(bd, o) and spec_compatible_bd(o, nxt.left_terminal)]
+                            ws = [float(o.weight) for o in adm]
+                            if adm and not all(w == 0 for w in ws) and all(w >= 0 for w in ws):
+                                tot = sum(ws)
+                                for o, w in zip(adm, ws):
+                                    got = next((p for d, p in trans_out if d is o), None)
+                                    if w > 0 and (got is None or not close(got, w / tot)):
+                                        ck.fail("transition-probability-differs-from-generator", inp, f"{(e, t, k)} -> {path[id(o)]}: graph {got}, generator {w / tot}")
                 # the generator's law for this descriptor as the open one
                 if isinstance(el, Stochastic) and bd.weight >= 0:
                     in_repeat = tok in el.repeat_tokens
